@@ -119,6 +119,8 @@ func init() {
 			}
 			return [][2]map[string]string{{a, b}}, true
 		}}
+	replayFamilies[modPath+".(*sortNode).Finish"] = &replayFamily{pkgDir: ".", testFile: "clover_replay_test.go", testName: "TestVerifReplaySortFinish",
+		build: func(r *Result, vals map[string]string) (interface{}, bool) { return "fixed scenario", true }}
 	replayFamilies[modPath+"/internal.compareNumbers"] = cmp
 	replayFamilies[modPath+"/internal.Compare"] = cmp
 	rangeOf := func(vals map[string]string, p string) (map[string]interface{}, bool) {
@@ -173,7 +175,7 @@ func parseGetValue(out string) map[string]string {
 
 func runValueReplay(P *Prog, r *Result) (out string, failed bool, ran bool) {
 	fam := replayFamilies[r.O.Fn]
-	if fam == nil || r.Model == "" {
+	if fam == nil {
 		return "", false, false
 	}
 	vals := parseGetValue(r.Model)
